@@ -1,35 +1,21 @@
-"""Per-property configuration: level, stages, assumptions."""
+"""Per-property configuration, loaded from vlib/propdefs/cNN.py.
 
-# stage: (name, harness command, race build?, extra build targets)
-PROPS = {
-    "C01": {
-        "level": "exploration",
-        "stages": [("lib", "c01", False, ()), ("lib-race", "c01", True, ())],
-        "assumptions": [
-            "success is read from the return values of SendManifestMultiStream/RecvManifestMultiStream; digests are taken after both returned and the connections were closed",
-            "real loopback QUIC and the repository's mock transport; TURN/STUN paths not driven",
-        ],
-    },
-    "C03": {
-        "level": "exploration",
-        "stages": [("lib", "c03", False, ())],
-        "assumptions": [
-            "liveness is decided as bounded progress: watchdog exceeded, no stream byte for half the window, and a canary transfer completing afterwards",
-            "loopback network without loss",
-        ],
-    },
-}
+Each propdef module defines:
+  PROP = {"level": ..., "stages": [(stage name, harness command, race build?, ())], "assumptions": [...],
+          optional: "binaries": ("./cmd/thru", "./cmd/thruserv"), "race_is_violation": bool, "exhaustive": bool,
+                    "thorough_only": (stage names,), "timeout": seconds}
+  META = {"technique": ..., "text": ..., "note": ...}
+"""
+import importlib
+import os
+import pkgutil
 
-# Texts for MANIFEST.json (level_claimed.text, level_note, technique).
-META = {
-    "C01": {
-        "technique": "runtime monitor: digest oracle over real transfers (loopback QUIC, multi-conn, mock) with jittered hooks; race-detector build",
-        "text": "Exploration: thousands of real SendManifestMultiStream/RecvManifestMultiStream executions over the mock transport and real loopback QUIC (1-4 connections) across tree shapes, chunk sizes, stream counts, root/scan modes and resume, with seeded delays at the chunk hooks to vary worker/arrival interleavings; on every double success the output tree digest must equal the source digest. Decides the executions produced, not all inputs.",
-        "note": "Trusted: the harness tree generator/digest (sha256), return values as the success signal, loopback network. Not driven: TURN/STUN paths, Windows paths.",
-    },
-    "C03": {
-        "technique": "runtime monitor: bounded-progress watchdog + canary over fault-free real QUIC transfers on a configuration grid and resume histories",
-        "text": "Exploration over a bounded grid (files x chunks-per-file x streams x connections x resume), all legal name classes, special shapes and resume histories (partial, complete, late resume report), plus random cases: every fault-free transfer over real loopback QUIC must return nil on both sides within the watchdog and produce the identical tree. Liveness is decided as bounded progress (watchdog, no byte moved for half the window, canary completes).",
-        "note": "Trusted: loopback QUIC without loss, the watchdog/canary rule; goroutine scheduling inside quic-go is not steered, diversity comes from repetition, jitter hooks and multi-connection runs.",
-    },
-}
+PROPS = {}
+META = {}
+
+_dir = os.path.join(os.path.dirname(os.path.abspath(__file__)), "propdefs")
+for _m in sorted(pkgutil.iter_modules([_dir]), key=lambda m: m.name):
+    _mod = importlib.import_module("vlib.propdefs." + _m.name)
+    _pid = _m.name.upper()
+    PROPS[_pid] = _mod.PROP
+    META[_pid] = _mod.META
